@@ -2331,8 +2331,8 @@ where
                 message: e.to_string(),
             })?;
 
-    let context = build_k1_forward_context_from_cell(tds, cell_key, vertex_key)?;
-    let result = apply_bistellar_flip::<K, U, V, D, 1>(tds, kernel, &context);
+    let result = build_k1_forward_context_from_cell(tds, cell_key, vertex_key)
+        .and_then(|context| apply_bistellar_flip::<K, U, V, D, 1>(tds, kernel, &context));
 
     if result.is_err()
         && let Some(inserted) = tds.get_vertex_by_key(vertex_key).copied()
